@@ -181,7 +181,9 @@ CHECKS = {
         "text": "RFC 8018 structure: per block U1 = PRF(P, S || INT32BE(i)) with the big-endian block-number bytes checked at bit level, count classes {0,1} (no chain) and > 1 (U2, then a chain loop "
                 "from the caller's count while count > 2, one generic iteration U(j+1) = PRF(P,U(j)), T ^= U(j+1)): count PRFs in total; block number from 1 in steps of 1; full blocks in place with "
                 "lock-step cursor/length; each last-block length 1..31 copies exactly that many bytes of T; T and U wiped. The chain trip count comes from ScalarEvolution (either loop direction). "
-                "Premise R-C14-PRF re-runs C12/C10/C11.",
+                "Premise R-C14-PRF re-runs C12/C10/C11. Besides the per-class summaries, the shape-independent rule R-C14-SMALL evaluates the function for count in {0,1,2,3,5} x every outlen 0..100 "
+                "(200 and more counts in the thorough tier) as straight paths (count and length concrete, data symbolic, HMAC uninterpreted) and compares the PRF transcript of every block and the "
+                "bytes written with RFC 8018: a refuter only (nothing beyond the bound is covered), so an unrecognised loop shape with a defect that shows for small block numbers is still reported.",
         "note": "Derived key values are not computed; block numbers beyond 2^32 are outside RFC 8018; HMAC is C12.",
         "technique": "finite-class symbolic path summaries with uninterpreted HMAC events; generic iterations of the block and chain loops",
     },
@@ -189,7 +191,7 @@ CHECKS = {
         "text": "Hash_DRBG structure on every path: instantiate, reseed and feed are the documented Hash_df chains (constant header bytes, the working value V absorbed byte for byte, then the new "
                 "material, then C = Hash_df(0x00 | V)) with the counter reset/incremented as documented; generate, per generic iteration with and without the automatic reseed and per block length "
                 "1..32: output = leading bytes of Hash(V), H = Hash(3 | V), V' = V + H + C + counter as a big-endian 256-bit sum (exact support sets plus evaluation of the bit-level terms on corner and "
-                "pseudo-random assignments). Hash calls are uninterpreted events with fresh outputs. Premise R-C15-HASH re-runs all rules of C10/C11. Every site that generates a block exists both with and without the automatic reseed in front of it.",
+                "pseudo-random assignments). Hash calls are uninterpreted events with fresh outputs. Premise R-C15-HASH re-runs all rules of C10/C11. Every site that generates a block exists both with and without the automatic reseed in front of it. The reseed counter and limit are 32-bit fields (a narrower count of calls wraps under feeds).",
         "note": "Output values are not computed (hash: C10/C11); reseed placement is C16; the sum is checked for counters below 2^31.",
         "technique": "symbolic path summaries with uninterpreted hash events; bit-level term evaluation for the 256-bit addition",
     },
